@@ -236,7 +236,7 @@ def rebuilt (m : Mesh) (p : String × Region) : String × Region :=
   (p.1, { pmin := p.2.pmin, pmax := p.2.pmax, dims := m.region.dims, units := m.region.units, tol := m.region.tol })
 
 theorem loadSubs_ok (m : Mesh) (l : List (String × Region)) (hinv : ∀ p ∈ l, p.2.Inv)
-    (hok : ∀ p ∈ l, T.subOk m p.2 = true) :
+    (hok : ∀ p ∈ l, T.candOk m p.2 = true) :
     loadSubs m (some l) = .ok { m with subs := l.map (rebuilt m) } := by
   unfold loadSubs
   simp only
@@ -246,7 +246,7 @@ theorem loadSubs_ok (m : Mesh) (l : List (String × Region)) (hinv : ∀ p ∈ l
     rfl)]
   simp only [List.map_id]
   unfold T.setSubs
-  have : (l.all fun p => T.subOk m p.2) = true := by
+  have : (l.all fun p => T.candOk m p.2) = true := by
     rw [List.all_eq_true]; exact hok
   rw [if_pos this]
   rfl
